@@ -44,6 +44,10 @@ type vzOracles struct {
 	// H-NODE: the chain as the omnipotent environment authored it (height -> hash)
 	advChain map[uint64]string
 
+	// C11: views as they were handed to consumers (the consumer's own value: maps are shared with it),
+	// re-checked later: a delivered view must never change (a missing clone shows up as a change)
+	delivered []vzDeliveredView
+
 	// C10: what was durable when a node crashed, per node index
 	crashSnap map[int]*vzCrashSnap
 }
@@ -57,6 +61,36 @@ type vzCrashSnap struct {
 	fins    map[uint64]string
 	rounds  map[[2]uint64]*vzViewDigest // stored proposals and votes of the voting and committing rounds
 	checked map[[2]uint64]bool
+}
+
+type vzDeliveredView struct {
+	node     *vzNode
+	inc      int
+	consumer string
+	v        *tmconsensus.VersionedRoundView
+	digest   string
+	step     int
+}
+
+// vzViewContentDigest renders everything a consumer can read from a view as a value.
+func vzViewContentDigest(v *tmconsensus.VersionedRoundView) string {
+	var parts []string
+	for _, ph := range v.ProposedHeaders {
+		parts = append(parts, fmt.Sprintf("ph:%x", ph.Header.Hash))
+	}
+	var bs bitset.BitSet
+	for kind, m := range map[string]map[string]gcrypto.CommonMessageSignatureProof{"prevote": v.PrevoteProofs, "precommit": v.PrecommitProofs} {
+		for hash, p := range m {
+			p.SignatureBitSet(&bs)
+			parts = append(parts, fmt.Sprintf("%s:%x:%s", kind, hash, bs.String()))
+		}
+	}
+	for h, l := range v.PrevCommitProof.Proofs {
+		parts = append(parts, fmt.Sprintf("pcp:%x:%d", h, len(l)))
+	}
+	sort.Strings(parts)
+	return fmt.Sprintf("%d/%d v%d pv%d pc%d tot%d/%d %s", v.Height, v.Round, v.Version, v.PrevoteVersion, v.PrecommitVersion,
+		v.VoteSummary.TotalPrevotePower, v.VoteSummary.TotalPrecommitPower, strings.Join(parts, ","))
 }
 
 type vzViewDigest struct {
@@ -262,6 +296,16 @@ func (o *vzOracles) afterStep() {
 	o.mu.Lock()
 	defer o.mu.Unlock()
 	w := o.w
+	for i := range o.delivered {
+		d := &o.delivered[i]
+		if d.node.inc != d.inc || d.digest == "" {
+			continue
+		}
+		if now := vzViewContentDigest(d.v); now != d.digest {
+			o.violate("C11", "view-changed-after-delivery/"+strings.SplitN(d.consumer, "-", 2)[0], "%s: the view handed to %s at step %d has changed since (it shares memory with a view the kernel keeps writing to): was %s, now %s", d.node.ident(), d.consumer, d.step, d.digest, now)
+			d.digest = ""
+		}
+	}
 	for _, nd := range w.nodes {
 		w.mu.Lock()
 		e, dead, down := nd.e, nd.dead, nd.down
@@ -448,11 +492,43 @@ func (o *vzOracles) onSMAction(nd *vzNode, a tmeil.StateMachineRoundAction) {}
 
 func (o *vzOracles) onRoundEntrance(nd *vzNode, re tmeil.StateMachineRoundEntrance) {
 	o.w.s.Logf("%s state machine enters %d/%d", nd.ident(), re.H, re.R)
+	if o.w.s.Stopped() || nd.byz {
+		return
+	}
+	o.mu.Lock()
+	defer o.mu.Unlock()
+	// C08 / C10: a state machine enters a height it has never been in at round 0 (it leaves rounds only
+	// forwards and for a cause); a restarted one resumes the height and round it had recorded, or starts
+	// the next height at round 0 - never in the middle of a height it has not seen.
+	d := nd.disk
+	if d.enteredRound == nil {
+		d.enteredRound = map[uint64]uint32{}
+	}
+	prev, seen := d.enteredRound[re.H]
+	if !seen && re.R != 0 {
+		key, prop := "height-first-entered-at-round-above-zero", "C08"
+		if nd.inc > 1 {
+			prop = "C10"
+		}
+		o.violate(prop, key, "%s: the state machine's first entrance into height %d is at round %d (incarnation %d)", nd.ident(), re.H, re.R, nd.inc)
+		if prop == "C10" {
+			o.violate("C08", key, "%s: the state machine's first entrance into height %d is at round %d (incarnation %d)", nd.ident(), re.H, re.R, nd.inc)
+		}
+	}
+	if !seen || re.R > prev {
+		d.enteredRound[re.H] = re.R
+	}
 }
 
 // checkView = monotonicity per consumer (C11) + content checks (C05, C06, C07).
 func (o *vzOracles) checkView(nd *vzNode, consumer string, v *tmconsensus.VersionedRoundView) {
 	o.checkViewContent(nd, consumer, v)
+	if o.on["C11"] && !nd.byz {
+		o.delivered = append(o.delivered, vzDeliveredView{node: nd, inc: nd.inc, consumer: consumer, v: v, digest: vzViewContentDigest(v), step: o.w.s.Steps})
+		if len(o.delivered) > 48 {
+			o.delivered = o.delivered[len(o.delivered)-48:]
+		}
+	}
 	key := fmt.Sprintf("%s/%s/%d/%d", nd.ident(), consumer, v.Height, v.Round)
 	dg := vzViewDigest{version: v.Version, phs: map[string]bool{}, votes: map[string]bool{}}
 	for _, ph := range v.ProposedHeaders {
@@ -998,6 +1074,47 @@ func (o *vzOracles) checkStoredHeadersIntact(nd *vzNode) {
 			o.violate("C04", "stored-committed-header-mutated", "%s: the committed header store now returns something else for height %d than what was saved (proof targets saved %d, now %d)", nd.ident(), h, strings.Count(want, ":"), strings.Count(got, ":"))
 			o.violate("C10", "stored-committed-header-mutated", "%s: the committed header store now returns something else for height %d than what was saved", nd.ident(), h)
 			o.violate("C01", "stored-committed-header-mutated", "%s: the committed header store now returns something else for height %d than what was saved", nd.ident(), h)
+		}
+	}
+}
+
+// checkConsumersCurrent: once inputs have stopped, the gossip strategy has received the mirror's latest
+// view of the voting and committing rounds (C11). snapshot returns the kernel's own views.
+func (o *vzOracles) checkConsumersCurrent(nd *vzNode, voting, committing *tmconsensus.VersionedRoundView) {
+	if !o.on["C11"] || nd.byz {
+		return
+	}
+	o.mu.Lock()
+	defer o.mu.Unlock()
+	for name, kv := range map[string]*tmconsensus.VersionedRoundView{"voting": voting, "committing": committing} {
+		if kv == nil || kv.Height == 0 {
+			continue
+		}
+		// the round may have reached the gossip strategy as next-round, voting and committing view in turn
+		var last vzViewDigest
+		cname, found := "", false
+		for _, cn := range []string{"gossip-voting", "gossip-committing", "gossip-next"} {
+			if l, ok := o.lastView[fmt.Sprintf("%s/%s/%d/%d", nd.ident(), cn, kv.Height, kv.Round)]; ok && (!found || l.version > last.version) {
+				last, cname, found = l, cn, true
+			}
+		}
+		for found {
+			var bs bitset.BitSet
+			missing := ""
+			for kind, m := range map[string]map[string]gcrypto.CommonMessageSignatureProof{"prevote": kv.PrevoteProofs, "precommit": kv.PrecommitProofs} {
+				for hash, p := range m {
+					p.SignatureBitSet(&bs)
+					for u, ok := bs.NextSet(0); ok; u, ok = bs.NextSet(u + 1) {
+						if k := fmt.Sprintf("%s/%x/%d", kind, hash, u); !last.votes[k] && missing == "" {
+							missing = k
+						}
+					}
+				}
+			}
+			if missing != "" {
+				o.violate("C11", "consumer-not-current/gossip", "%s: inputs have stopped; the kernel's %s view %d/%d (version %d) holds vote %s that the last %s view the gossip strategy received (version %d) lacks", nd.ident(), name, kv.Height, kv.Round, kv.Version, missing, cname, last.version)
+			}
+			break
 		}
 	}
 }
